@@ -1,35 +1,50 @@
-"""C05 (component level) — check configuration (see tools/props.py for the keys)."""
+"""C05 — editing keys act exactly at the cursor and the buffer stays bounded (component + editor level)."""
 from propslib import comp_scope
 
 PROP = dict(
-    extract=[],
+    extract=["editor"],
     lean_targets=["Chewing.Props.C05"],
-    runs=[dict(bin="comp")],
-    scope=comp_scope("cedc"),
+    runs=[dict(bin="comp"), dict(bin="editor"),
+          dict(bin="editor", args=["--script", "c05"], tag="editor-c05-overshoot")],
+    scope=comp_scope("cedc", "ed"),
     level="proof",
     exhaustive=False,
-    rule="one evaluation = one call of a method of the real CompositionEditor (through the guarded forwarding probe), "
-         "recomputed by the model from the implementation's own full pre-state and compared on cursor, cursor stack and "
-         "symbols (`cedc` records; the inner composition is compared under C04 as `cedi`); "
-         "distinct = distinct record text",
-    trusted_base=["no kernel enumeration: all theorems are structural (simp/omega over lists)"],
-    assumptions=["component level (DESIGN §12 stage A): CompositionEditor only; the per-key lift "
-                 "(syllable_commit_inserts_one, bounded_after_key, easy_symbol_expansion) needs the editor model (later work)",
+    rule="one evaluation = one call of a method of the real CompositionEditor (`cedc` records, through the guarded "
+         "forwarding probe) or one public operation of the real Editor (`ed` records: keys in all four states, API calls, "
+         "option/layout/engine changes; generated histories, plus scripted histories (run editor-c05-overshoot) in which one "
+         "step overshoots auto_commit_threshold by two or more: a two-character easy-symbol expansion at a full buffer, the "
+         "limit lowered by >= 2 in mid-composition followed by editing keys; and an editing sweep over every cursor position), recomputed by the model from the implementation's own full "
+         "pre-state and compared on the complete post-state; distinct = distinct record text",
+    trusted_base=["no kernel enumeration: all theorems are structural (induction over operation lists / histories, case "
+                  "analysis over the arms of the state machine, simp/omega over lists)",
+                  "hook H1 (Editor::verif_snapshot, read-only) and the CompositionEditor forwarding probe"],
+    assumptions=["the per-key frame theorems are stated on `dispatch` (the state's `next` + behaviour bookkeeping), i.e. BEFORE "
+                 "the auto-commit tail of process_keyevent; the tail only removes a prefix (tail_com / bounded_after_key)",
+                 "bounded_after_key assumes that the conversion answer tiles the buffer (TilesLen: that is C03's theorem "
+                 "about the real engines); without it the loop can run out of intervals",
                  "remove_after_cursor / replace at the end of the buffer and remove_front(n > len) hit an assert: the "
-                 "editor must guard them (precondition, compared against the model in separate sessions)"],
+                 "editor guards them (delete_key, bounded_after_key show the guards)"],
 )
 
 MANIFEST = dict(
-    text="Lean 4 theorems (Chewing/Props/C05.lean) over an executable model of every method of CompositionEditor "
-         "(src/editor/composition_editor.rs): cursor <= len is an invariant of every operation sequence (induction over "
-         "operation lists, including pop_cursor clamping and remove_front saturation, no precondition on selections); "
-         "insert puts exactly one symbol at the cursor and advances it; Backspace/Delete remove exactly the symbol "
-         "before/at the cursor; Left/Right/Home/End/move_cursor/push/pop/clamp change only the cursor; push…pop restores the "
-         "saved cursor clamped to the new length; remove_front drops a prefix and saturates the cursor. Tie: per-step "
-         "correspondence with the real code from the implementation's pre-state, plus a shadow list/cursor oracle. "
-         "Component level only: per-key lift and bounded_after_key are later work.",
+    text="Lean 4 theorems (Chewing/Props/C05.lean). Component level, over an executable model of every method of "
+         "CompositionEditor: cursor <= len is an invariant of every operation sequence (induction, no precondition); insert "
+         "puts exactly one symbol at the cursor and advances it; Backspace/Delete remove exactly the symbol before/at the "
+         "cursor; the cursor moves and push/pop/clamp change only the cursor; remove_front drops a prefix and saturates. "
+         "Editor level, over the editor state-machine model (all four states, every arm, every environment): the editor "
+         "touches its pre-edit buffer only through CompositionEditor methods (Reach), hence cursor <= len after every public "
+         "operation and every history (cursor_le_len_editor); per-key theorems backspace_key, delete_key, move_key, "
+         "symbol_key_inserts_at_cursor, easy_symbol_expansion, syllable_commit_inserts_one (a completed syllable with a word "
+         "is inserted exactly at the cursor, cursor + 1, nothing else moves), and the bound: tryAutoCommit_bound (the auto-commit "
+         "loop re-establishes len <= auto_commit_threshold, removing only a prefix), bounded_after_absorb (every absorbed key that "
+         "ends in Entering, from any state), bounded_after_key / bounded_after_key_syllable (every key handled in Entering / "
+         "EnteringSyllable that answers Absorb or Commit) under the hypothesis that the conversion tiles the buffer. Tie: per-step correspondence "
+         "of both models with the real code from the implementation's own pre-state, plus a shadow list/cursor oracle "
+         "written from the property text evaluated on every step of the real editor.",
     note="Trusted: Lean kernel (axioms propext, Classical.choice, Quot.sound only), the harness and the compiled model "
-         "driver, the guarded forwarding probe for the crate-private CompositionEditor.",
-    technique="Lean 4 proof (invariant by induction over operation lists, list frame equations) over an executable model; "
-              "sampled step-wise model/implementation correspondence; shadow-list oracle",
+         "driver, the read-only snapshot hook and the guarded forwarding probe for the crate-private CompositionEditor. "
+         "bounded_after_key is conditional on the conversion answer tiling the buffer (C03).",
+    technique="Lean 4 proof (invariants by induction over operation lists and editor histories, case analysis over the "
+              "modelled key-event state machine, list frame equations) over executable models; sampled step-wise "
+              "model/implementation correspondence; shadow-list oracle",
 )
